@@ -26,6 +26,10 @@ Forms   == {"call", "notification", "batch_first", "batch_mid", "batch_last", "b
             "batch_after_invalid", "batch_before_invalid"}      \* a malformed element (1, {"foo":"bar"}) as neighbour
 Headers == {"none", "wronguser", "wrongpass", "malformed", "correct"}
 AuthSet == {TRUE, FALSE}
+(* the same port answers plain HTTP POSTs and WebSocket upgrades; on a WebSocket connection the header travels *)
+(* with the upgrade request and every frame sent afterwards is judged by it                                    *)
+Transports == {"http", "ws"}
+WsForms == {"call", "notification", "batch_mid", "batch_notification", "batch_after_invalid"}
 
 VARIABLES req, executed, reply
 
@@ -41,9 +45,10 @@ Decide(r) ==
        reply |-> IF run THEN (IF r.form \in {"notification", "batch_notification"} THEN "none" ELSE "answer")
                  ELSE (IF r.form = "notification" THEN "none" ELSE "unauthorized")]
 
-Requests == [method : Methods, form : Forms, header : Headers, auth : AuthSet]
+Requests == {r \in [method : Methods, form : Forms, header : Headers, auth : AuthSet, transport : Transports] :
+               r.transport = "ws" => r.form \in WsForms}
 
-Init == req = [method |-> "none", form |-> "call", header |-> "none", auth |-> FALSE] /\ executed = "no" /\ reply = "none"
+Init == req = [method |-> "none", form |-> "call", header |-> "none", auth |-> FALSE, transport |-> "http"] /\ executed = "no" /\ reply = "none"
 
 Next ==
   /\ req.method = "none"
@@ -51,7 +56,7 @@ Next ==
     /\ req' = r
     /\ executed' = Decide(r).executed
     /\ reply' = Decide(r).reply
-    /\ PrintT(<<"CASE", ToJson([method |-> r.method, form |-> r.form, header |-> r.header, auth |-> r.auth,
+    /\ PrintT(<<"CASE", ToJson([method |-> r.method, form |-> r.form, header |-> r.header, auth |-> r.auth, transport |-> r.transport,
                                   executed |-> Decide(r).executed, reply |-> Decide(r).reply,
                                   mutating |-> r.method \in Mutating])>>)
 
